@@ -152,6 +152,14 @@ def check_window(prog, check, f):
         for n in ast.walk(init.node):
             if isinstance(n, ast.Attribute) and isinstance(n.ctx, ast.Store) and isinstance(n.value, ast.Name) and n.value.id == 'self':
                 attrs.append(n.attr)
+    # defaults kept at class level count as well
+    class_level = []
+    for ci_ in (f.cls.mro if f.cls is not None else []):
+        for st_ in ci_.node.body:
+            if isinstance(st_, ast.Assign) and len(st_.targets) == 1 and isinstance(st_.targets[0], ast.Name):
+                class_level.append((ci_, st_))
+                attrs.append(st_.targets[0].id)
+    attrs = list(dict.fromkeys(attrs))
     dattr = [a for a in attrs if 'cutoff' in a.lower()]
     sattr = [a for a in attrs if 'upress' in a.lower()]
     if len(dattr) != 1 or len(sattr) != 1:
@@ -188,6 +196,14 @@ def check_window(prog, check, f):
                      'holder %s is what group %r returns' % (a_, lits_[0]) if len(lits_) == 1 else
                      'groups %s all return the series stored in %s: one of them does not return its own stored results' % (lits_, a_),
                      "GetTimeSeries(name, group_of_series=...) for each group after a solve with a step trace and an initial steady state")
+    for ci_, st_ in class_level:
+        if st_.targets[0].id in (dattr[0], sattr[0]):
+            want = None if st_.targets[0].id == dattr[0] else False
+            okd = isinstance(st_.value, ast.Constant) and st_.value.value is want
+            check.ob('C16.R3', '%s::%s::starts-without(%s)' % (ci_.module.rel, ci_.name, st_.targets[0].id), okd, '%s:%d' % (ci_.module.rel, st_.lineno),
+                     'a new model has %s = %r' % (st_.targets[0].id, want) if okd else
+                     'a new model starts with %s = `%s`: retrievals are cut / shifted although no cutoff or suppression was asked for'
+                     % (st_.targets[0].id, unparse(st_.value)), 'a model solved over more periods than that default, read with GetTimeSeries(name)')
     ev = Evaluator(f.node, cutoff, dattr[0], sattr[0])
     try:
         rets = ev.run(params)
